@@ -9,7 +9,8 @@
 //! Bounds (chosen so that each mode stays well under 60 s in release mode):
 //!   C01  alphabet {0,1,2}, |old|,|new| <= 6, 3 algorithms; embedded arrays (offsets 2 / 3), guarded
 //!        Index wrapper, extracted slices
-//!   C07  alphabet {0,1,2}, |old|,|new| <= 6, deadline already expired at entry
+//!   C07  alphabet {0,1,2}, |old|,|new| <= 6, deadline already expired at entry; work after expiry on 6 shapes
+//!   C07clock  (crate built with --cfg similar_verif) time runs out at every deadline check k
 //!   C08  alphabet {0,1,2}, |old|,|new| <= 4, 6 hook stacks, 2 hook kinds, every failure index k
 //!   C02  alphabet {0,1,2}, |old|,|new| <= 5, deadline none/expired, slices + sub-ranges + TextDiff
 //!   C03  alphabet {0,1,2} len <= 6 and alphabet {0,1} len <= 8, Myers + LCS
@@ -514,7 +515,10 @@ fn c07(cases: &mut u64) -> Option<String> {
     if let Some(w) = raw_modes("C07", 6, true, cases) {
         return Some(w);
     }
-    c07_builder_plumbing(cases)
+    if let Some(w) = c07_builder_plumbing(cases) {
+        return Some(w);
+    }
+    c07_cost(cases)
 }
 
 /// "deadlines ... configured on the text-diff builder ... reach the algorithm": with an already expired deadline the
@@ -553,6 +557,205 @@ fn c07_builder_plumbing(cases: &mut u64) -> Option<String> {
                         }
                     }
                     (Err(e), _) | (_, Err(e)) => return Some(format!("C07 builder plumbing: alg={:?} tokens={}: panic {}", alg, n, e)),
+                }
+            }
+        }
+    }
+    None
+}
+
+
+// ---------------------------------------------------------------------------------------------
+// C07: work after expiry (counting items) and, with the cfg(similar_verif) virtual clock, expiry at
+// every deadline check
+// ---------------------------------------------------------------------------------------------
+thread_local! {
+    static CMP_ALL: std::cell::Cell<u64> = std::cell::Cell::new(0);
+    static CMP_AFTER: std::cell::Cell<u64> = std::cell::Cell::new(0);
+}
+
+#[cfg(similar_verif)]
+fn clock_expired() -> bool {
+    similar::verif_clock::expired()
+}
+#[cfg(not(similar_verif))]
+fn clock_expired() -> bool {
+    false
+}
+
+/// an item that counts every `==` performed on it (and separately those after the virtual clock ran out)
+#[derive(Debug, Clone, Copy, Eq)]
+struct Tok(u32);
+impl PartialEq for Tok {
+    fn eq(&self, other: &Tok) -> bool {
+        CMP_ALL.with(|c| c.set(c.get() + 1));
+        if clock_expired() {
+            CMP_AFTER.with(|c| c.set(c.get() + 1));
+        }
+        self.0 == other.0
+    }
+}
+impl std::hash::Hash for Tok {
+    fn hash<H: std::hash::Hasher>(&self, state: &mut H) {
+        self.0.hash(state)
+    }
+}
+impl PartialOrd for Tok {
+    fn partial_cmp(&self, other: &Tok) -> Option<std::cmp::Ordering> {
+        Some(self.cmp(other))
+    }
+}
+impl Ord for Tok {
+    fn cmp(&self, other: &Tok) -> std::cmp::Ordering {
+        self.0.cmp(&other.0)
+    }
+}
+fn toks(s: &[u32]) -> Vec<Tok> {
+    s.iter().map(|&x| Tok(x)).collect()
+}
+fn reset_counts() {
+    CMP_ALL.with(|c| c.set(0));
+    CMP_AFTER.with(|c| c.set(0));
+}
+fn run_tok(alg: Algorithm, old: &[Tok], new: &[Tok], deadline: Option<Instant>) -> Result<(Result<(), usize>, Vec<Call>), String> {
+    guard(|| {
+        let mut h = Rec::default();
+        let r = diff_deadline(alg, &mut h, old, 0..old.len(), new, 0..new.len(), deadline);
+        (r, h.calls)
+    })
+}
+/// "a small constant multiple of N+M": the statement gives no constant; 8 with slack 16 is far above what the
+/// algorithms need to unwind (prefix/suffix scans of the pending boxes, one round of the search) and far below
+/// a full diff of the shapes used here.
+fn work_bound(n: usize, m: usize) -> u64 {
+    (8 * (n + m) + 16) as u64
+}
+
+fn big_shapes(n: u32) -> Vec<(&'static str, Vec<u32>, Vec<u32>)> {
+    vec![
+        ("all different", (0..n).collect(), (1000..1000 + n).collect()),
+        ("all different, one shared unique item at the end", (0..n).chain(Some(77_777)).collect(), (1000..1000 + n).chain(Some(77_777)).collect()),
+        (
+            "shared unique item, different block, shared unique item, different tail",
+            Some(55_555).into_iter().chain(0..n).chain(Some(77_777)).chain(5000..5050).collect(),
+            Some(55_555).into_iter().chain(1000..1000 + n).chain(Some(77_777)).chain(6000..6050).collect(),
+        ),
+        ("repeated items only", (0..n).map(|i| i % 7).collect(), (0..n).map(|i| (i * 3 + 1) % 5 + 10).collect()),
+        ("period 7 against period 5, shared alphabet", (0..n).map(|i| i % 7).collect(), (0..n).map(|i| i % 5).collect()),
+        (
+            "unique anchors every 10 items, unrelated filler",
+            (0..n).map(|i| if i % 10 == 0 { 90_000 + i } else { i % 3 }).collect(),
+            (0..n).map(|i| if i % 10 == 0 { 90_000 + i } else { 20 + i % 4 }).collect(),
+        ),
+    ]
+}
+
+/// deadline expired before the start: every comparison happens after expiry
+fn c07_cost(cases: &mut u64) -> Option<String> {
+    let rules = Rules { carried: Carried::WithinRun, finish: Fin::OnceAndLast, nonempty: true };
+    for &sz in &[40u32, 300] {
+        for (name, o, n) in big_shapes(sz) {
+            let (to, tn) = (toks(&o), toks(&n));
+            for &alg in &ALGS {
+                *cases += 1;
+                reset_counts();
+                let dl = Some(expired_deadline());
+                let (res, calls) = match run_tok(alg, &to, &tn, dl) {
+                    Ok(x) => x,
+                    Err(p) => return Some(format!("C07 work after expiry: alg={:?} shape '{}' size {}: {}", alg, name, sz, p)),
+                };
+                let cmp = CMP_ALL.with(|c| c.get());
+                if res.is_err() {
+                    return Some(format!("C07 work after expiry: alg={:?} shape '{}' size {}: Err although the hook never fails", alg, name, sz));
+                }
+                if let Err(e) = check_script(&calls, &o, 0..o.len(), &n, 0..n.len(), rules) {
+                    return Some(format!("C07 alg={:?} shape '{}' size {} deadline expired at entry: {}", alg, name, sz, e));
+                }
+                if cmp > work_bound(o.len(), n.len()) {
+                    return Some(format!(
+                        "C07 work after expiry: alg={:?} shape '{}' N={} M={} deadline already expired at entry: {} element comparisons > 8*(N+M)+16 = {}",
+                        alg, name, o.len(), n.len(), cmp, work_bound(o.len(), n.len())
+                    ));
+                }
+            }
+        }
+    }
+    None
+}
+
+#[cfg(not(similar_verif))]
+fn c07_clock(_cases: &mut u64) -> Option<String> {
+    eprintln!("mode C07clock needs the crate built with --cfg similar_verif (virtual clock hook)");
+    std::process::exit(2);
+}
+
+/// with the virtual clock: time runs out at the k-th deadline check, for every k
+#[cfg(similar_verif)]
+fn c07_clock(cases: &mut u64) -> Option<String> {
+    use similar::verif_clock as vc;
+    let far = Instant::now() + Duration::from_secs(1_000_000);
+    let rules = Rules { carried: Carried::WithinRun, finish: Fin::OnceAndLast, nonempty: true };
+    let lax = Rules { carried: Carried::Ignore, finish: Fin::Ignore, nonempty: false };
+    let small = seqs(3, 5);
+    let mut inputs: Vec<(String, Vec<u32>, Vec<u32>, bool)> = Vec::new();
+    for o in &small {
+        for n in &small {
+            inputs.push((String::new(), o.clone(), n.clone(), true));
+        }
+    }
+    for (name, o, n) in big_shapes(120) {
+        inputs.push((name.to_string(), o, n, false));
+    }
+    for (name, o, n, every_k) in &inputs {
+        let (to, tn) = (toks(o), toks(n));
+        for &alg in &ALGS {
+            let ctx = |k: &str| format!("C07 virtual clock: alg={:?} {} old={:?} new={:?} time runs out at deadline check {}", alg, name, &o[..o.len().min(12)], &n[..n.len().min(12)], k);
+            // (1) a deadline that never expires gives exactly the result of no deadline
+            vc::set_fuel(None);
+            let base = match run_tok(alg, &to, &tn, None) { Ok(x) => x, Err(p) => { vc::set_fuel(None); return Some(format!("{}: {}", ctx("(no deadline)"), p)) } };
+            vc::set_fuel(Some(u64::MAX));
+            let never = run_tok(alg, &to, &tn, Some(far));
+            let probes = vc::probes();
+            vc::set_fuel(None);
+            *cases += 1;
+            match never {
+                Err(p) => return Some(format!("{}: {}", ctx("never"), p)),
+                Ok(x) => if x != base {
+                    return Some(format!("{}: calls {:?} differ from the calls without a deadline {:?} (clause: a deadline that never expires gives exactly the result of no deadline)", ctx("never"), x.1, base.1));
+                }
+            }
+            // (2) expiry at check k
+            let ks: Vec<u64> = if *every_k { (0..probes).collect() } else {
+                let mut v = vec![0, 1, 2, 3, probes / 4, probes / 2, probes.saturating_sub(2), probes.saturating_sub(1)];
+                v.retain(|&k| k < probes); v.sort(); v.dedup(); v
+            };
+            for k in ks {
+                *cases += 1;
+                reset_counts();
+                vc::set_fuel(Some(k));
+                let r = run_tok(alg, &to, &tn, Some(far));
+                let after = CMP_AFTER.with(|c| c.get());
+                let did_expire = vc::expired();
+                // the capture pipeline under the same schedule
+                vc::set_fuel(Some(k));
+                let cap = guard(|| capture_diff_deadline(alg, &to[..], 0..to.len(), &tn[..], 0..tn.len(), Some(far)));
+                vc::set_fuel(None);
+                let ks = format!("{} of {}", k, probes);
+                let (res, calls) = match r { Ok(x) => x, Err(p) => return Some(format!("{}: {}", ctx(&ks), p)) };
+                if res.is_err() {
+                    return Some(format!("{}: Err although the hook never fails", ctx(&ks)));
+                }
+                if let Err(e) = check_script(&calls, o, 0..o.len(), n, 0..n.len(), rules) {
+                    return Some(format!("{}: calls={:?}: {}", ctx(&ks), calls, e));
+                }
+                if did_expire && after > work_bound(o.len(), n.len()) {
+                    return Some(format!("{}: {} element comparisons after expiry > 8*(N+M)+16 = {} (N={} M={})", ctx(&ks), after, work_bound(o.len(), n.len()), o.len(), n.len()));
+                }
+                match cap {
+                    Err(p) => return Some(format!("{}: capture_diff_deadline: {}", ctx(&ks), p)),
+                    Ok(ops) => if let Err(e) = check_script(&ops_calls(&ops), o, 0..o.len(), n, 0..n.len(), lax) {
+                        return Some(format!("{}: capture_diff_deadline ops={:?}: {}", ctx(&ks), ops, e));
+                    }
                 }
             }
         }
@@ -1750,7 +1953,8 @@ fn main() {
     let t0 = Instant::now();
     let (res, bounds) = match &mode[..] {
         "C01" => (c01(&mut cases), "alphabet {0,1,2}, len 0..=6, 3 algorithms x (embedded sub-range, guarded Index, extracted slices)"),
-        "C07" => (c07(&mut cases), "alphabet {0,1,2}, len 0..=6, deadline expired at entry, raw algorithms + capture_diff_deadline"),
+        "C07" => (c07(&mut cases), "alphabet {0,1,2}, len 0..=6, deadline expired at entry, raw algorithms + capture_diff_deadline; builder plumbing; work after expiry <= 8(N+M)+16 on 6 shapes of 40 and 300 items"),
+        "C07clock" => (c07_clock(&mut cases), "virtual clock (cfg similar_verif): alphabet {0,1,2} len 0..=5 x every deadline check k, plus 6 shapes of 120 items x sampled k; valid script, finish once, never-expiring == no deadline, work after expiry <= 8(N+M)+16"),
         "C08" => (c08(&mut cases), "alphabet {0,1,2}, len 0..=4, 6 hook stacks x 2 hook kinds x every failing call index"),
         "C02" => (c02(&mut cases), "alphabet {0,1,2}, len 0..=5, deadline none/expired, slices + sub-ranges + TextDiff chars"),
         "C03" => (c03(&mut cases), "alphabet {0,1,2} len 0..=6 and alphabet {0,1} len 0..=8, Myers + LCS, raw + captured"),
